@@ -348,6 +348,21 @@ def feasible_reach(fn, src, targets, avoid, limit=40000, overrides=None):
                     val = ('bool', int(o['val']))
                 elif o['k'] in ('copy', 'move') and not o['pl']['p']:
                     val = _vget(V, o['pl']['l'])
+                elif o['k'] in ('copy', 'move') and len(o['pl']['p']) == 1 and o['pl']['p'][0]['k'] == 'field':
+                    tv = _vget(V, o['pl']['l'])
+                    if tv and tv[0] == 'tup' and o['pl']['p'][0]['i'] < len(tv[1]):
+                        val = tv[1][o['pl']['p'][0]['i']]
+            elif k == 'agg' and rv.get('ak') == 'tuple':
+                comps = []
+                for o2 in rv['ops']:
+                    if o2['k'] == 'const' and o2.get('ty') == 'bool' and 'val' in o2:
+                        comps.append(('bool', int(o2['val'])))
+                    elif o2['k'] in ('copy', 'move') and not o2['pl']['p']:
+                        comps.append(_vget(V, o2['pl']['l']))
+                    else:
+                        comps.append(None)
+                if any(c is not None for c in comps):
+                    val = ('tup', tuple(comps))
             elif k == 'agg' and rv.get('ak') == 'adt':
                 val = ('enum', rv['variant'])
             elif k == 'unop' and rv['op'] == 'Not' and rv['a']['k'] in ('copy', 'move') and not rv['a']['pl']['p']:
@@ -360,6 +375,13 @@ def feasible_reach(fn, src, targets, avoid, limit=40000, overrides=None):
                     val = ('discof', rv['pl']['l'])
             if val is None and overrides and l in overrides:
                 val = overrides[l]
+            if val is None and k in ('binop', 'unop') and clean_ty(fn.local_ty(l)) == 'bool':
+                if k == 'unop' and rv['op'] == 'Not' and rv['a']['k'] in ('copy', 'move') and not rv['a']['pl']['p']:
+                    v0 = _vget(V, rv['a']['pl']['l'])
+                    if v0 and v0[0] == 'sym':
+                        val = ('sym', v0[1], not v0[2])
+                if val is None:
+                    val = ('sym', bb * 10000 + len(b['stmts']) + l, True)     # an unknown truth value: the same symbol wherever it is copied
             V = _vset(V, l, None if l in untracked else val)
         t = b['term']
         if not t:
@@ -369,9 +391,30 @@ def feasible_reach(fn, src, targets, avoid, limit=40000, overrides=None):
         if k == 'switch' and t['discr']['k'] in ('copy', 'move') and not t['discr']['pl']['p']:
             dv = _vget(V, t['discr']['pl']['l'])
             listed = [v for v, _ in t['targets']]
+            if dv and dv[0] == 'sym':
+                known = _vget(V, -1 - dv[1])
+                if known is not None:
+                    dv = ('bool', int(bool(known[1]) == dv[2]))
             if dv and dv[0] == 'bool':
                 hit = [tb for v, tb in t['targets'] if v == str(dv[1])]
                 succ = hit if hit else [t['otherwise']]
+            elif dv and dv[0] == 'sym':
+                # branch on an unknown: each side learns the symbol's value
+                edges_ = [(v, tb) for v, tb in t['targets']] + [('otherwise', t['otherwise'])]
+                lst = [v for v, _ in t['targets']]
+                for v, tb in edges_:
+                    if v == 'otherwise':
+                        if '0' in lst and '1' in lst:
+                            continue
+                        truth = 0 if '1' in lst else 1
+                    else:
+                        truth = int(v)
+                    symtruth = bool(truth) == dv[2]
+                    st2 = (tb, _vset(V, -1 - dv[1], ('bool', int(symtruth))), armed)
+                    if st2 not in seen:
+                        seen.add(st2)
+                        work.append(st2)
+                continue
             elif dv and dv[0] == 'discof':
                 ev = _vget(V, dv[1])
                 ty = fn.local_ty(dv[1])
@@ -396,6 +439,8 @@ def feasible_reach(fn, src, targets, avoid, limit=40000, overrides=None):
                             ev = _vget(V, e[1])
                             if ev and ev[0] == 'enum':
                                 val = ('bool', int(ev[1] == PRED_METHODS[name][1]))
+                    if val is None and clean_ty(fn.local_ty(d['l'])) == 'bool' and d['l'] not in untracked:
+                        val = ('sym', bb * 10000 + 9999, True)
                     V2 = _vset(V, d['l'], val)
                 st = (t['target'], V2, armed)
                 if st not in seen:
